@@ -204,6 +204,17 @@ pub fn initial_images(g: &Geo, which: &[&str]) -> Vec<ImageSet> {
                 s.comp_pad = 100;
                 out.push(from_specs(&format!("{}-compressed", g.name), "compressed", vec![s]));
             }
+            "compressed-straddle" => {
+                // the first stream starts 8 bytes before a host cluster boundary and crosses it;
+                // the second one shares the following host cluster with the first one's tail
+                let mut s = base(0xB00000);
+                s.kinds = vec![GKind::Unalloc; ncl];
+                s.kinds[0] = GKind::Compressed;
+                s.kinds[1] = GKind::Compressed;
+                s.kinds[3] = GKind::Compressed;
+                s.comp_pad = (g.cs() - 8) as usize;
+                out.push(from_specs(&format!("{}-compressed-straddle", g.name), "compressed", vec![s]));
+            }
             "compressed-boundary" => {
                 let mut s = base(0xB00000);
                 s.kinds = vec![GKind::Unalloc; ncl];
@@ -255,6 +266,15 @@ pub fn initial_images(g: &Geo, which: &[&str]) -> Vec<ImageSet> {
                 let mut t = base(0xB00000);
                 t.backing_name = Some("sim1".into());
                 out.push(from_specs(&format!("{}-chain2", g.name), "backing", vec![t, b1, b2]));
+            }
+            "data-last-table" => {
+                let mut s = base(0xB00000);
+                s.kinds = vec![GKind::Unalloc; ncl];
+                let first = (ncl - 1) / l2e * l2e;
+                for c in first..(first + 3).min(ncl) {
+                    s.kinds[c] = GKind::Data;
+                }
+                out.push(from_specs(&format!("{}-data-last-table", g.name), "data", vec![s]));
             }
             "shortl1" => {
                 let mut s = base(0xB00000);
@@ -323,6 +343,37 @@ pub fn cow_alphabet(g: &Geo) -> Vec<Op> {
     ops.push(Op::Read { off: 0, len: (2 * cs) as usize });
     ops.push(Op::Discard { off: 0, len: cs });
     ops.push(Op::Discard { off: 0, len: 4 * cs });
+    ops.push(Op::Flush);
+    ops.push(Op::Reopen);
+    ops
+}
+
+
+/// discard-heavy alphabet (C11)
+pub fn discard_alphabet(g: &Geo) -> Vec<Op> {
+    let (bs, cs, tb, v) = (g.bs(), g.cs(), g.tb(), g.vsize());
+    let offs = [0, bs, cs - bs.min(cs - 1).max(1).min(bs), cs, cs + bs, v - cs, v - bs, v, v + cs, u64::MAX - cs];
+    let lens = [0, bs, cs - bs.min(cs), cs, cs + bs, 2 * cs, 3 * cs + bs, v, u64::MAX];
+    let mut ops: Vec<Op> = vec![];
+    for o in offs {
+        for l in lens {
+            let op = Op::Discard { off: o, len: l };
+            if !ops.contains(&op) {
+                ops.push(op);
+            }
+        }
+    }
+    // ranges starting unaligned inside one L2 table and reaching into the next ones
+    if v > tb {
+        ops.push(Op::Discard { off: tb / 2 + bs, len: v });
+        ops.push(Op::Discard { off: tb / 2 + bs, len: tb });
+        ops.push(Op::Discard { off: tb - cs - bs, len: 3 * cs });
+    }
+    ops.push(Op::Write { off: 0, len: (3 * cs) as usize, tag: 1 });
+    ops.push(Op::Write { off: cs, len: bs as usize, tag: 2 });
+    if v > 2 * tb {
+        ops.push(Op::Write { off: 2 * tb, len: (2 * cs) as usize, tag: 3 });
+    }
     ops.push(Op::Flush);
     ops.push(Op::Reopen);
     ops
